@@ -529,6 +529,20 @@ fn generic_rows(m: &PackageMetadata, model: &Model) -> Vec<(String, Exp, Result<
             if let Some(got) = got {
                 rows.push((format!("{which}.{name}"), exp, got));
             }
+            // scalar / first-item getters on the same entry
+            let extra = match &val {
+                Val::Int32(v) => Some(("get_entry_data_as_u32", v.first().map(|x| Exp::Ok(json!(x))).unwrap_or(Exp::Err(ANYERR)), call!(get_entry_data_as_u32, |x| json!(x)))),
+                Val::Int64(v) => Some(("get_entry_data_as_u64", v.first().map(|x| Exp::Ok(json!(x))).unwrap_or(Exp::Err(ANYERR)), call!(get_entry_data_as_u64, |x| json!(x)))),
+                Val::I18n(v) => Some(("get_entry_data_as_i18n_string", v.first().map(|x| Exp::Ok(s(x))).unwrap_or(Exp::Err(ANYERR)), call!(get_entry_data_as_i18n_string, |x| json!(x)))),
+                // a getter of another type must report the type mismatch, never a value
+                Val::Str(_) => Some(("get_entry_data_as_u32(on a string)", Exp::Err(WRONGTYPE), call!(get_entry_data_as_u32, |x| json!(x)))),
+                Val::StrArray(_) => Some(("get_entry_data_as_string(on a string array)", Exp::Err(WRONGTYPE), call!(get_entry_data_as_string, |x| json!(x)))),
+                Val::Bin(_) => Some(("get_entry_data_as_string_array(on binary)", Exp::Err(WRONGTYPE), call!(get_entry_data_as_string_array, |x| json!(x)))),
+                _ => None,
+            };
+            if let Some((name, exp, Some(got))) = extra {
+                rows.push((format!("{which}.{name}"), exp, got));
+            }
         }
     }
     rows
